@@ -1569,10 +1569,24 @@ End Cut.
 Definition not_found (found : list (fkey * (frag * list rid))) (f : frag) : bool :=
   match aget key_eqb found (key_of f) with Some _ => false | None => true end.
 
-Lemma missing_rows_frags found dg : forall rows prev i la,
-  frags_of (missing_rows found dg rows prev i la) = filter (not_found found) (frags_of rows).
+Lemma frags_of_gap_rows : forall l, forallb is_gap_row l = true -> frags_of l = [].
 Proof.
-  induction rows as [|r rows IH]; intros prev i la; cbn [missing_rows]; [reflexivity|].
+  induction l as [|[f|gp] l IH]; cbn [forallb is_gap_row andb]; intro H; [reflexivity|discriminate|].
+  rewrite frags_of_RG. apply IH, H.
+Qed.
+
+(* in both modes the separator is made of gap rows only *)
+Lemma frags_of_missing_sep c dg between : frags_of (missing_sep c dg between) = [].
+Proof.
+  unfold missing_sep. destruct (fix_gap_run c && forallb is_gap_row between) eqn:E.
+  - apply andb_prop in E. apply frags_of_gap_rows, E.
+  - destruct (last between _) as [?|?]; reflexivity.
+Qed.
+
+Lemma missing_rows_frags c found dg : forall rows between i la,
+  frags_of (missing_rows c found dg rows between i la) = filter (not_found found) (frags_of rows).
+Proof.
+  induction rows as [|r rows IH]; intros between i la; cbn [missing_rows]; [reflexivity|].
   destruct r as [f|gp].
   - rewrite frags_of_RF. cbn [filter]. unfold not_found at 1.
     destruct (aget key_eqb found (key_of f)) as [v|] eqn:E.
@@ -1580,23 +1594,23 @@ Proof.
     + rewrite frags_of_app, frags_of_RF, IH.
       match goal with |- frags_of ?sep ++ _ = _ => assert (Es : frags_of sep = []) end.
       { destruct la as [la|]; [|reflexivity]. destruct (negb (la =? i - 1)); [|reflexivity].
-        destruct prev as [[pf|pg]|]; reflexivity. }
+        apply frags_of_missing_sep. }
       rewrite Es. reflexivity.
   - rewrite frags_of_RG. apply IH.
 Qed.
 
 Definition left_frags (l : list scaffold) : list frag := flat_map (fun sc => frags_of (sc_rows sc)) l.
 
-Lemma add_missing_fold dg found : forall input nm left nm' left',
-  foldM (add_missing_one dg found) input (nm, left) = Ok (nm', left') ->
+Lemma add_missing_fold c dg found : forall input nm left nm' left',
+  foldM (add_missing_one c dg found) input (nm, left) = Ok (nm', left') ->
   left_frags left' = left_frags left ++ filter (not_found found) (in_frags input).
 Proof.
   induction input as [|[name rows] input IH]; intros nm left nm' left' H; cbn [foldM] in H.
   - injection H as <- <-. cbn [in_frags flat_map filter]. rewrite app_nil_r. reflexivity.
   - bind_inv H acc Hacc. destruct acc as [nm1 left1]. rewrite (IH _ _ _ _ H).
     unfold in_frags at 2. cbn [flat_map snd]. fold (in_frags input). rewrite filter_app, app_assoc. f_equal.
-    unfold add_missing_one in Hacc. pose proof (missing_rows_frags found dg rows None 0 None) as Hm.
-    destruct (missing_rows found dg rows None 0 None) as [|x0 t0] eqn:Em.
+    unfold add_missing_one in Hacc. pose proof (missing_rows_frags c found dg rows [] 0 None) as Hm.
+    destruct (missing_rows c found dg rows [] 0 None) as [|x0 t0] eqn:Em.
     + injection Hacc as <- <-. rewrite <- Hm. cbn [frags_of flat_map]. rewrite app_nil_r. reflexivity.
     + bind_inv Hacc nm2 Hnm2. injection Hacc as <- <-. rewrite <- Hm.
       unfold left_frags. rewrite flat_map_app. cbn [flat_map sc_rows]. rewrite app_nil_r. reflexivity.
@@ -1637,7 +1651,7 @@ Proof.
   split.
   - eapply FinalInv_Post; eassumption.
   - destruct nl as [nm left]. cbn [fst snd] in *.
-    pose proof (add_missing_fold _ _ _ _ _ _ _ Hnl) as Hl. unfold left_frags in Hl. cbn [flat_map app] in Hl.
+    pose proof (add_missing_fold _ _ _ _ _ _ _ _ Hnl) as Hl. unfold left_frags in Hl. cbn [flat_map app] in Hl.
     rewrite Hl. f_equal. apply filter_ext. intros f. unfold not_found, is_found.
     cbn [with_namer with_store b_found]. destruct (aget key_eqb (b_found b3) (key_of f)); reflexivity.
 Qed.
